@@ -466,8 +466,13 @@ fn gen_kind(s: &mut Incent, rng: &mut Rng, ctx: &mut Ctx, o: &crate::scen::incen
                 0 | 1 => 2,
                 2 => 3,
                 3 => rng.range(4, 16) as u32,
+                // long gaps while several long flows run: (flows x unclaimed epochs) beyond 100
+                4..=9 if s.cfg.allow.long_flows && o.flows.len() >= 2 => rng.range(34, 70) as u32,
                 _ => 1,
             };
+            if n >= 34 {
+                ctx.probe("long_epoch_gap_with_several_flows");
+            }
             mk(rng.idx(na), Op::NewEpoch { n }, 0, Fault::None)
         }
     }
